@@ -221,6 +221,87 @@ def machine_lane(ctx, rng, select, keys_fn, n, extra_case=None, profile=None, fl
     return done
 
 
+def grouping_grid_lane(ctx, rng, select, keys_fn, extra_case=None, profile=None, draws=2):
+    """Every bracketing of 3- and 4-operand chains of ONE associative-looking operator (add, mul)
+    x every int/float pattern of the operands, operand values where regrouping changes the
+    double (0.1 0.2 0.3, 1e16 next to 1, 3 x 0.1), compared with the value the SOURCE grouping
+    produces: a translation that flattens or regroups some kind pattern selects a wrong row."""
+    import itertools
+    fl = [T.lit("float", "0.1"), T.lit("float", "0.2"), T.lit("float", "0.3"), T.lit("float", "1e16"), T.ident("f"),
+          T.lit("float", "0.7")]
+    it = [T.I(1), T.I(3), T.ident("a"), T.ident("b"), T.I(7)]
+    shapes = {3: [lambda o, x: ("bin", o, x[0], ("bin", o, x[1], x[2]))],
+              4: [lambda o, x: ("bin", o, x[0], ("bin", o, x[1], ("bin", o, x[2], x[3]))),
+                  lambda o, x: ("bin", o, ("bin", o, x[0], x[1]), ("bin", o, x[2], x[3])),
+                  lambda o, x: ("bin", o, x[0], ("bin", o, ("bin", o, x[1], x[2]), x[3]))]}
+    n = 0
+    for op in ("add", "mul"):
+        for k, mks in shapes.items():
+            for si, mk in enumerate(mks):
+                for pat in itertools.product("FI", repeat=k):
+                    for d in range(draws):
+                        n += 1
+                        leaves = [rng.choice(fl) if c == "F" else rng.choice(it) for c in pat]
+                        if not ctx.mine(n):
+                            continue
+                        e = mk(op, leaves)
+                        cols = scalar.columns_of(e)
+                        rows = R.rows_for(cols or ["a"], rng, 60, R.BOUNDARY)
+                        ev = Evaluator()
+                        vals = [ev.ev(e, r) for r in rows]
+                        cands = [v for v in vals if v is not UNSPEC and v is not None and not isinstance(v, bool)
+                                 and v == v and abs(v) < 1e300]
+                        if not cands:
+                            continue
+                        v = rng.choice(cands)
+                        lit = T.lit("int", str(v)) if isinstance(v, int) else T.lit("float", repr(v))
+                        for cmp_ in ("eq", "gt"):
+                            t = ("cmp", cmp_, e, lit)
+                            if profile is not None and not scalar.conforms(t, profile):
+                                continue
+                            ctx.count("grouping_grid_filters")
+                            ctx.cls("grouping-grid:%s:%d:%d:%s" % (op, k, si, "".join(pat)))
+                            _judge(ctx, t, rng, select, keys_fn, "grouping-grid", True, 150, extra_case, profile,
+                                   domain=R.BOUNDARY)
+    return n
+
+
+BRACKET_STRS = ["(", ")", "a(b", "c)", "((", "))", "'(", ")'", "(x)", "[", "]", ") or (", "\"(", "/*", "*/"]
+
+
+def bracket_string_lane(ctx, rng, select, keys_fn, extra_case=None, profile=None):
+    """Groups of groups (each sub-group needs brackets of its own, so the rendered text of the
+    whole starts with `(` and ends with `)`) whose first and last sub-group hold string
+    literals with surplus brackets, quotes, comment markers - every ordered PAIR of them, in
+    boolean and in arithmetic nesting, rows that hold those very strings: a renderer that
+    decides about brackets by looking at rendered text must not be fooled by string content."""
+    s_, u_, a_, b_, c_ = (T.ident(x) for x in "suabc")
+    dom = dict(R.DOMAIN, s=[None, "ab"] + BRACKET_STRS[:9], u=[None, "b"] + BRACKET_STRS[:9],
+               a=[None, 0, 1], b=[None, 0, 1], c=[None, 1])
+    n = 0
+    for l1 in BRACKET_STRS:
+        for l2 in BRACKET_STRS:
+            L1, L2 = T.S(l1), T.S(l2)
+            g_and = ("bool", "or", ("bool", "and", ("cmp", "eq", s_, L1), ("cmp", "gt", a_, T.I(0))),
+                     ("bool", "and", ("cmp", "gt", b_, T.I(0)), ("cmp", "eq", u_, L2)))
+            g_or = ("bool", "and", ("bool", "or", ("cmp", "eq", s_, L1), ("cmp", "gt", a_, T.I(0))),
+                    ("bool", "or", ("cmp", "gt", b_, T.I(0)), ("cmp", "eq", u_, L2)))
+            shapes = [("bool", "and", ("cmp", "eq", c_, T.I(1)), g_and), ("un", "not", g_or), ("un", "not", g_and),
+                      ("bool", "or", ("cmp", "eq", c_, T.I(1)), g_or), ("bool", "and", g_and, ("cmp", "eq", c_, T.I(1))),
+                      ("cmp", "eq", ("bin", "mul", ("bin", "add", T.call("length", T.call("concat", s_, L1)), a_),
+                                     ("bin", "sub", b_, T.call("length", T.call("concat", u_, L2)))), T.I(-4)),
+                      ("cmp", "eq", ("bool", "or", ("cmp", "eq", s_, L1), ("cmp", "eq", u_, L2)), T.lit("bool", "true"))]
+            for t in shapes:
+                n += 1
+                if not ctx.mine(n):
+                    continue
+                if profile is not None and not scalar.conforms(t, profile):
+                    continue
+                ctx.count("bracket_string_filters")
+                _judge(ctx, t, rng, select, keys_fn, "bracket-strings", True, 150, extra_case, profile, domain=dom)
+    return n
+
+
 def big_list_lane(ctx, rng, select, keys_fn, n, extra_case=None, profile=None, sizes=(33, 257, 1001, 1500)):
     """Long in-lists as operands of and / or / not / eq, the values that decide the rows
     placed first, last or in the middle of the padding (a translation that chunks, sorts or
@@ -292,6 +373,61 @@ def math_of_int_lane(ctx, rng, select, keys_fn, extra_case=None, profile=None):
                     continue
                 ctx.count("math_of_int_filters")
                 _judge(ctx, t, rng, select, keys_fn, "math-of-int", True, 200, extra_case, profile)
+    return n
+
+
+def neg_stack_lane(ctx, rng, select, keys_fn, extra_case=None, profile=None, depth=8):
+    """1..depth unary minus signs stacked on compound operands, in the operator positions where
+    the operand needs its brackets (under mul/div/mod, right of sub) and at a comparison root -
+    a renderer that cancels or merges sign pairs must still hand back ONE operand of the
+    right sign."""
+    a, b, c = T.ident("a"), T.ident("b"), T.ident("c")
+    inners = [("bin", "add", a, b), ("bin", "sub", a, b), ("bin", "mul", a, b), ("bin", "div", a, T.I(2)),
+              T.call("indexof", T.ident("s"), T.S("b")), a, T.I(3), ("bin", "mod", a, T.I(3))]
+    n = 0
+    for k in range(1, depth + 1):
+        for inner in inners:
+            x = inner
+            for _ in range(k):
+                x = ("un", "neg", x)
+            shapes = [("cmp", "eq", ("bin", "mul", x, c), T.I(8)), ("cmp", "eq", ("bin", "mul", c, x), T.I(8)),
+                      ("cmp", "eq", ("bin", "sub", T.I(4), x), T.I(2)), ("cmp", "lt", ("bin", "div", c, x), T.I(1)),
+                      ("cmp", "eq", ("bin", "mod", x, T.I(3)), T.I(1)), ("cmp", "ge", x, T.I(1)),
+                      ("cmp", "eq", ("bin", "add", x, x), T.I(2)), ("cmp", "eq", ("bin", "sub", x, c), T.I(0))]
+            for t in shapes:
+                if profile is not None and not scalar.conforms(t, profile):
+                    continue
+                n += 1
+                if not ctx.mine(n):
+                    continue
+                ctx.count("neg_stack_filters")
+                ctx.cls("neg-stack:%d" % k)
+                _judge(ctx, t, rng, select, keys_fn, "neg-stack", True, 200, extra_case, profile)
+    return n
+
+
+def spelling_twin_lane(ctx, rng, select, keys_fn, extra_case=None, profile=None):
+    """X and X', X or X' where X' is X with ONE number respelled in the other numeric type
+    (2 <-> 2.0): equal by Python value, different by OData type - a translation that compares
+    or caches sub-translations by value must keep both."""
+    n = 0
+    for col in ("a", "b"):
+        for op in ("div", "add", "sub", "mul"):
+            for i_, f_ in (("2", "2.0"), ("3", "3.0"), ("1", "1.0")):
+                for cmp_, k in (("eq", T.I(1)), ("eq", T.lit("float", "1.5")), ("lt", T.I(1)), ("ge", T.lit("float", "0.5"))):
+                    xi = ("cmp", cmp_, ("bin", op, T.ident(col), T.I(int(i_))), k)
+                    xf = ("cmp", cmp_, ("bin", op, T.ident(col), T.lit("float", f_)), k)
+                    for conn in ("and", "or"):
+                        for l, r in ((xi, xf), (xf, xi)):
+                            for t in (("bool", conn, l, r), ("bool", conn, ("cmp", "gt", T.ident("c"), T.I(0)), ("bool", conn, l, r)),
+                                      ("bool", conn, l, ("un", "not", r))):
+                                if profile is not None and not scalar.conforms(t, profile):
+                                    continue
+                                n += 1
+                                if not ctx.mine(n):
+                                    continue
+                                ctx.count("spelling_twin_filters")
+                                _judge(ctx, t, rng, select, keys_fn, "spelling-twin", True, 200, extra_case, profile)
     return n
 
 
